@@ -725,3 +725,51 @@ def rule_for_ref(text):
         new = "for i_ in 0..%s.len() { let %s = %s[i_];" % (e, x, e)
         apps.append(_app("R-for", text, mm.start(), mm.end(), new, "definition of iterating a slice by reference pattern"))
         text = text[:mm.start()] + new + text[mm.end():]
+
+
+def rule_opq_record(text):
+    """R-opq for `record: &Record`: field reads / method calls -> accessor shims."""
+    apps = []
+    table = [
+        (r"record\s*\.\s*ttl_expiry\s*\.\s*load\s*\(\s*Ordering::Acquire\s*\)", "rec_expiry(record)"),
+        (r"record\s*\.\s*value\s*\.\s*read\s*\(\s*\)\s*\.\s*as_ref\s*\(\s*\)", "rec_value(record)"),
+        (r"&\s*record\s*\.\s*key\b(?!\s*\.)", "rec_key(record).as_slice()"),
+        (r"record\s*\.\s*key\b", "rec_key(record)"),
+        (r"record\s*\.\s*value_len\b", "rec_value_len(record)"),
+        (r"record\s*\.\s*timestamp\b", "rec_timestamp(record)"),
+    ]
+    for pat, rep in table:
+        while True:
+            m = mask(text)
+            mm = re.search(pat, m)
+            if not mm:
+                break
+            apps.append(_app("R-opq", text, mm.start(), mm.end(), rep, "accessor shim = the field read / method call it names (A11)"))
+            text = text[:mm.start()] + rep + text[mm.end():]
+    return text, apps
+
+
+def rule_resize(text):
+    apps = []
+    while True:
+        m = mask(text)
+        mm = re.search(r"(\w+)\s*\.\s*resize\s*\(", m)
+        if not mm:
+            return text, apps
+        op = mm.end() - 1
+        cl = match_close(m, op)
+        new = "vec_resize_u8(&mut %s, %s)" % (mm.group(1), text[op + 1:cl].strip())
+        apps.append(_app("R-vec", text, mm.start(), cl + 1, new, "shim: Vec<u8>::resize"))
+        text = text[:mm.start()] + new + text[cl + 1:]
+
+
+def rule_sig_dyn_format(text):
+    """signature rule: `&dyn RecordFormat` -> `&impl RecordFormat` (static instead of dynamic dispatch)"""
+    apps = []
+    m = mask(text)
+    mm = re.search(r"&\s*dyn\s+RecordFormat\b", m)
+    if mm:
+        new = "&impl RecordFormat"
+        apps.append(_app("R-dyn", text, mm.start(), mm.end(), new, "static dispatch instead of a trait object; same method is called"))
+        text = text[:mm.start()] + new + text[mm.end():]
+    return text, apps
